@@ -41,6 +41,10 @@ type Resp struct {
 	Star    bool `json:"star,omitempty"`   // Content-Range total given as '*'
 	P206    bool `json:"p206,omitempty"`   // answer 206 even for start 0
 	Chunk   int  `json:"chunk,omitempty"`  // origin chunk size
+	// ReqClose: the client asks for "Connection: close" (the origin's answer
+	// does not carry it): the proxy itself adds the line to the head it writes
+	// and closes the connection after the response.
+	ReqClose bool `json:"req_close,omitempty"`
 }
 
 // Lane is the responses one connection writes inside a parallel group.
@@ -56,6 +60,12 @@ type Step struct {
 	Conn int     `json:"conn,omitempty"`
 	R    *Resp   `json:"r,omitempty"`
 	Par  []Lane  `json:"par,omitempty"`
+	// open, conn level: the shaped connection wraps a connection whose Close
+	// closes it and then reports an error (as tls.Conn.Close does when the
+	// close_notify alert cannot be sent any more)
+	Faulty bool `json:"faulty,omitempty"`
+	// close: the client goes away abortively (SO_LINGER 0: RST, no TLS close_notify)
+	Abort bool `json:"abort,omitempty"`
 }
 
 // Case is a history against one shaped listener.
@@ -161,6 +171,19 @@ type wconn struct {
 	cfg      *cfgM              // configuration active when the connection was accepted
 	consumed int                // stream offset up to which responses were accounted
 	dead     bool               // closed (by an action, by the harness, or found closed)
+	gone     bool               // closed by the client side of the harness
+	raw      net.Conn           // the client's TCP connection (under TLS at the mitm level)
+	outer    *trafficshape.Conn // conn level, faulty: the accepted connection under the wrapped one
+}
+
+// faultyConn closes the connection it wraps and reports a failure all the same.
+type faultyConn struct {
+	net.Conn
+}
+
+func (f *faultyConn) Close() error {
+	f.Conn.Close()
+	return errors.New("close failed after closing (harness)")
 }
 
 type tracked struct {
@@ -311,6 +334,9 @@ func (w *world) teardown() {
 		if c.ts != nil && w.level == "conn" {
 			c.ts.Close()
 		}
+		if c.outer != nil {
+			c.outer.Close()
+		}
 	}
 	if w.wire() {
 		w.pr.Stop(2 * time.Second)
@@ -374,7 +400,7 @@ func (w *world) post(cfg Config) {
 	}
 }
 
-func (w *world) open(id int) {
+func (w *world) open(id int, faulty bool) {
 	if _, dup := w.conns[id]; dup {
 		return
 	}
@@ -393,7 +419,7 @@ func (w *world) open(id int) {
 		w.failf("C18/harness/dial-error-timeout", "dial: %v", err)
 		return
 	}
-	wc := &wconn{id: id, cl: cl, st: &stream{}, cfg: w.active}
+	wc := &wconn{id: id, cl: cl, raw: cl, st: &stream{}, cfg: w.active}
 	if w.level == "mitm" {
 		// CONNECT, then TLS with the proxy's forged certificate: from here on
 		// the proxy writes through a second shaped connection wrapping the TLS one
@@ -437,6 +463,13 @@ func (w *world) open(id int) {
 				return
 			}
 			wc.ts = ts
+			if faulty {
+				// what proxy.go does around a TLS session: a second shaped
+				// connection over a connection that is not the accepted one
+				wc.outer = ts
+				w.trackConn(ts, w.active)
+				wc.ts = w.tsl.GetTrafficShapedConn(&faultyConn{Conn: ts})
+			}
 		case <-time.After(w.T):
 			w.failf("C18/conn/accept/stuck-timeout", "Accept did not return within %v for a completed dial", w.T)
 			cl.Close()
@@ -454,16 +487,18 @@ func (w *world) open(id int) {
 	w.conns[id] = wc
 }
 
-func (w *world) closeConn(id int) {
+func (w *world) closeConn(id int, abort bool) {
 	wc := w.conns[id]
-	if wc == nil || wc.dead {
+	if wc == nil || wc.gone {
 		return
 	}
-	wc.dead = true
+	wc.dead, wc.gone = true, true
+	if abort {
+		// RST: nothing orderly reaches the other side (no FIN, no close_notify)
+		netkit.Reset(wc.raw)
+	}
 	if w.level == "conn" {
 		wc.ts.Close()
-		wc.cl.Close()
-		return
 	}
 	wc.cl.Close()
 }
@@ -1228,7 +1263,11 @@ func (w *world) respE2E(wc *wconn, r Resp) {
 	}
 	o.t0 = time.Now()
 	wc.cl.SetWriteDeadline(time.Now().Add(w.T))
-	if _, err := wc.cl.Write([]byte(fmt.Sprintf("GET %s HTTP/1.1\r\nHost: %s\r\n\r\n", target, host))); err != nil {
+	reqClose := ""
+	if r.ReqClose {
+		reqClose = "Connection: close\r\n"
+	}
+	if _, err := wc.cl.Write([]byte(fmt.Sprintf("GET %s HTTP/1.1\r\nHost: %s\r\n%s\r\n", target, host, reqClose))); err != nil {
 		fail("request-write-error", "writing the request for %s failed: %v (the connection should be open)", o.url, err)
 		wc.dead = true
 		return
@@ -1327,6 +1366,9 @@ func (w *world) respE2E(wc *wconn, r Resp) {
 	}
 	o.dur = doneAt.Sub(o.t0)
 	wc.consumed = endOfResp
+	if r.ReqClose {
+		wc.dead = true // the proxy closes after this response
+	}
 	w.evaluate([]*obs{o})
 }
 
@@ -1362,7 +1404,7 @@ func (w *world) resp(id int, r Resp) {
 
 func (w *world) resources() {
 	for id := range w.conns {
-		w.closeConn(id)
+		w.closeConn(id, false)
 	}
 	expected := w.baseline + 2 + len(w.shapeBuckets())
 	open := func(kind string) (n, of int) {
@@ -1428,9 +1470,9 @@ func runOnce(c Case, T time.Duration) kit.Verdict {
 				w.post(*st.Cfg)
 			}
 		case "open":
-			w.open(st.Conn)
+			w.open(st.Conn, st.Faulty && w.level == "conn")
 		case "close":
-			w.closeConn(st.Conn)
+			w.closeConn(st.Conn, st.Abort)
 		case "resp":
 			if st.R != nil {
 				w.resp(st.Conn, *st.R)
